@@ -117,11 +117,15 @@ structure St (σ κ : Type) where
 
 variable {σ κ : Type}
 
+/-- the location is `workspace/p` or below it -/
+def wsUnder (p : Comps) : Loc → Bool
+  | .ws q => isPrefix p q
+  | _ => false
+
 /-- `os.path.exists(workspace/p)` -/
 def existsWs (st : St σ κ) (p : Comps) : Bool :=
   !st.wsMissing &&
-  (p.isEmpty || st.fs.any (fun e => match e.1 with | .ws q => isPrefix p q | _ => false) ||
-   st.plain.any (fun q => isPrefix p q))
+  (p.isEmpty || st.fs.any (fun e => wsUnder p e.1) || st.plain.any (fun q => isPrefix p q))
 
 def moveLoc (p : Comps) (n : Nat) : Loc → Loc
   | .ws q => if isPrefix p q then .attic n (q.drop p.length) else .ws q
